@@ -696,6 +696,10 @@ func (in *Interp) callSSA(caller *frame, fn *ssa.Function, args []value, env []v
 		in.res.StubsHit[name]++
 		return f(in, caller, fn, args)
 	}
+	if f := dynIntrinsic(fn); f != nil { // summaries selected by name pattern (cgo's _Cfunc_*), see intr_cgo.go
+		in.res.StubsHit[name]++
+		return f(in, caller, fn, args)
+	}
 	if fn.Origin() != nil {
 		if f, ok := in.lookupIntrinsic(fn.Origin().String()); ok {
 			in.res.StubsHit[fn.Origin().String()]++
